@@ -41,7 +41,11 @@ RULE = ('three real simulators on the same (block, initial registers/memories, i
         'every touched address and untouched neighbours; (1c) module designs: one sub-module builder instantiated 2-3 '
         'times, so the design holds several MemBlocks all named "scratch" and RomBlocks all named "lut" with different '
         'contents (memory names need not be unique), plus near-miss names, every memory with its own initial map, '
-        'shared or separate address inputs; (1d) hostile names: sweep / random designs whose inputs, outputs, registers, '
+        'shared or separate address inputs; (1e) multi-limb arithmetic: `*` (full, squared, mixed-width, truncated raw '
+        'products, multiply-accumulate), `+`, `-`, comparisons on operands of 129..260 bits with value classes all-ones, '
+        'per-limb extreme patterns (0, 1, 2^64-1, 2^64-2, 2^63, ...), dense and random, 11+ cycles; default_value drawn '
+        'from 0 / small / values exceeding memory, register or output bitwidths (reads of never-written memory words); '
+        '(1d) hostile names: sweep / random designs whose inputs, outputs, registers, '
         'internal wires, constants and memories are renamed (WireVector.name setter) from a pool of Python keywords and '
         'builtins, every identifier found in the code FastSimulation and CompiledSimulation emit NOW for a sample design '
         '(d, regs, outs, mem_ws, carry, tmplo, lookup, uint64_t, w<uid>_<name> ...), the sanitizers\' temporaries and their '
@@ -65,7 +69,9 @@ TRUSTED = ['Sim/CLimb.v `limbs_to_Z` / `limbs_ok` + the per-builder statements i
            'gcc -O0 and the x86-64 `mulq` inline asm implement C99 uint64_t arithmetic / a 64x64->128 multiply '
            '(the C text is modelled per builder; its compilation is exercised only behaviourally)']
 ASSUMPTIONS = [
-    'initial register/memory values and default_value are within range (legal_init)',
+    'initial REGISTER values are within range (legal_init): registers without reset_value get an explicit '
+    'register_value_map entry whenever default_value would not fit them; default_value itself may exceed any '
+    'memory bitwidth (reads of never-written words are masked by Simulation / the reference semantics)',
     'Coq-side comparison is by 61-bit polynomial fingerprint per trace row (mod 2^61-1); all values are fetched '
     'and compared individually whenever a fingerprint differs',
     'the design space includes sanity_check-valid blocks that the construction API cannot build (LogicNets whose '
@@ -363,6 +369,101 @@ def apply_hostile_names(rng, d, frac):
             renamed.append(('Mem', m.id, m.name))
     d.renamed = renamed
     return d
+
+
+# ---- multi-limb arithmetic ---------------------------------------------------------------------
+BIG_WIDTHS = [129, 130, 160, 191, 192, 193, 256, 257, 260]
+LIMB_ATOMS = [0, 1, (1 << 64) - 1, (1 << 64) - 2, 1 << 63, (1 << 63) - 1, (1 << 32) - 1, 1 << 32]
+
+
+def limb_pattern_value(rng, w):
+    """value in [0, 2^w) from classes that stress the carry / partial-product chains of EVERY limb"""
+    r = rng.random()
+    top = (1 << w) - 1
+    if r < 0.12:
+        return top                                             # all-ones in every limb
+    if r < 0.20:
+        return top - 1
+    if r < 0.26:
+        return 1 << (w - 1)
+    if r < 0.50:                                               # each limb an extreme pattern or random
+        v = 0
+        for k in range((w + 63) // 64):
+            limb = rng.choice(LIMB_ATOMS) if rng.random() < 0.7 else rng.getrandbits(64)
+            v |= limb << (64 * k)
+        return v & top
+    if r < 0.60:                                               # dense, all high bits set
+        return top ^ rng.getrandbits(max(w - 8, 1))
+    return rng.getrandbits(w)                                  # random dense
+
+
+def biglimb_design(rng, i):
+    """`*`, `+`, `-`, comparisons and accumulations on operands of three to five 64-bit limbs"""
+    pyrtl.reset_working_block()
+    block = pyrtl.working_block()
+    d = gen_designs.Design(block)
+    W = BIG_WIDTHS[i % len(BIG_WIDTHS)]
+    W2 = rng.choice([65, 100, 128, 129, W - 1, W])
+    a, b, c = pyrtl.Input(W, 'a'), pyrtl.Input(W, 'b'), pyrtl.Input(W2, 'c')
+    s = pyrtl.Input(1, 's')
+    d.inputs = [a, b, c, s]
+    acc = pyrtl.Register(2 * W, 'acc')
+    cnt = pyrtl.Register(W, 'cnt')
+    d.regs = [acc, cnt]
+    prod = a * b
+    items = [('mul', prod), ('mul_ac', a * c), ('sq', a * a), ('mul_lo', prod[:W]), ('mul_hi', prod[W:]),
+             ('add', a + b), ('addc', a + c), ('sub', a - b), ('subc', c - a), ('add3', (a + b) + c),
+             ('lt', a < b), ('gt', a > b), ('eq', a == b), ('le', a <= c), ('ge', c >= b),
+             ('mac', acc + prod), ('dec', cnt - a), ('mulreg', cnt * b), ('neg', ~a + 1),
+             ('muxmul', pyrtl.select(s, prod, (b * b)))]
+    for nm, w in items:
+        probe(block, 'o_' + nm, w)
+        d.ops.append(nm)
+    acc.next <<= (acc + prod)[:2 * W]
+    cnt.next <<= (cnt - a + pyrtl.select(s, b, c.zero_extended(W)))[:W]
+    pool = [a, b, cnt]
+    for k, dw in enumerate(sorted({W + 1, 2 * W - 1, 128, 129, 192, 193, 2 * W - 64})):   # truncated products
+        if dw < 2 * W:
+            x, y = rng.choice(pool), rng.choice(pool)
+            probe(block, 'rawmul%d_o' % k, raw_net(block, '*', None, (x, y), dw, 'rawmul%d' % k))
+    for k, (op, nat) in enumerate([('+', W + 1), ('-', W + 1), ('+', W + 1), ('-', W + 1)]):
+        x, y = rng.choice(pool), rng.choice(pool)
+        probe(block, 'rawas%d_o' % k, raw_net(block, op, None, (x, y), narrower(rng, nat), 'rawas%d' % k))
+    d.big_w = W
+    return d
+
+
+def biglimb_stimulus(rng, block, ncycles):
+    regmap, memmap, _ = make_stimulus(rng, block, 0)
+    for r in list(regmap):
+        regmap[r] = limb_pattern_value(rng, len(r))
+    ins = sorted(block.wirevector_subset(pyrtl.Input), key=lambda w: w.name)
+    inputs = [{w.name: limb_pattern_value(rng, len(w)) for w in ins} for _ in range(ncycles)]
+    return regmap, memmap, inputs
+
+
+def pick_default_value(rng, block, family):
+    """default_value: mostly 0; otherwise small, or LARGER than what some memory / register / wire of the
+    design can hold (a simulator-wide constant need not fit a particular memory)"""
+    p_zero = {'memhash': 1.0, 'modules': 0.5, 'biglimb': 0.9}.get(family, 0.8)
+    if rng.random() < p_zero:
+        return 0
+    widths = sorted({m.bitwidth for m in block_mems(block)} | {len(r) for r in block.wirevector_subset(pyrtl.Register)}
+                    | {len(w) for w in block.wirevector_subset(pyrtl.Output)})
+    cands = [1, 1, 0xA5, (1 << 64) | 5, (1 << 130) + 3]
+    for w in widths[:4] + widths[-2:]:
+        cands += [1 << w, (1 << w) - 1, (1 << w) | 1, (3 << w) | rng.getrandbits(max(w, 1))]
+    return rng.choice(cands)
+
+
+def shield_registers(rng, block, regmap, dflt):
+    """a default_value that does not fit a register is not a legal initial value of that register (the
+    simulators disagree with each other and with the documentation about it, outside C02's statement: see
+    ASSUMPTIONS): such registers get an explicit in-range register_value_map entry instead"""
+    for r in block.wirevector_subset(pyrtl.Register):
+        if r not in regmap and r.reset_value is None and dflt >= (1 << len(r)):
+            regmap[r] = gen_designs.boundary_value(rng, len(r))
+    return regmap
 
 
 MEMHASH_AW = [9, 12, 16, 33]
@@ -849,6 +950,10 @@ def run(ctx):
         designs.append(('hostile', i, apply_hostile_names(rng, d, rng.choice([0.35, 0.7, 1.0]))))
         for kind, _, nm in d.renamed:
             ctx.count('hostile_names', '%s: %s' % (kind if kind != 'WireVector' else 'Wire', name_class(nm)))
+    n_biglimb = 9 if quick else 72
+    for i in range(n_biglimb):                    # 3..5-limb multiplications, additions, subtractions, comparisons
+        rng = ctx.sub_rng('biglimb', i)
+        designs.append(('biglimb', i, biglimb_design(rng, i)))
     n_memhash = 8 if quick else 48
     for i in range(n_memhash):                    # hash-map collisions in the C memories
         rng = ctx.sub_rng('memhash', i)
@@ -875,10 +980,17 @@ def run(ctx):
             elif family == 'modules':
                 regmap, memmap, inputs = make_stimulus(rng, block, ncyc + 6)
                 memmap = distinct_memmaps(rng, block, memmap)
+            elif family == 'biglimb':
+                regmap, memmap, inputs = biglimb_stimulus(rng, block, ncyc + 8)
             else:
                 regmap, memmap, inputs = make_stimulus(rng, block, ncyc)
             has_mem = any(not isinstance(m, pyrtl.RomBlock) for m in block_mems(block))
-            dflt = 0 if (rng.random() < 0.85 or family == 'memhash') else 1
+            dflt = pick_default_value(rng, block, family)
+            regmap = shield_registers(rng, block, regmap, dflt)
+            ctx.count('default_value', '0' if dflt == 0 else '1' if dflt == 1 else
+                      'exceeds some memory bitwidth' if any(dflt >= (1 << m.bitwidth) for m in block_mems(block)
+                                                           if not isinstance(m, pyrtl.RomBlock))
+                      else 'other non-zero')
             case = dict(idx=len(cases), family=family, design=i, variant=variant, block=block, mem_addrs=mem_addrs,
                         regmap=regmap, memmap=memmap, inputs=inputs, dflt=dflt, has_mem=has_mem,
                         ops=list(d.ops), renamed=getattr(d, 'renamed', None) if variant == 'pre' else None)
